@@ -187,10 +187,10 @@ def pregen(repo):
         text = ("// GENERATED on every run by /verif/lib/verus_c14.py from src/prayer_times/date.rs (fn partition):\n"
                 "// the statement `%s;` verbatim.\n"
                 "pub(crate) fn %s(%s) -> %s {\n    %s\n}\n"
-                "macro_rules! c14_bs {\n    ($name:ident, $clo:expr, $chi:expr) => {\n"
+                "macro_rules! c14_bs {\n    ($name:ident, $dmax:expr, $clo:expr, $chi:expr) => {\n"
                 "#[kani::proof]\n#[kani::solver(kissat)]\npub fn $name() {\n"
                 "    let days: usize = kani::any();\n    let count: usize = kani::any();\n"
-                "    kani::assume(days <= 8_000_001 && count >= $clo && count <= $chi);\n"
+                "    kani::assume(days <= $dmax && count >= $clo && count <= $chi);\n"
                 "    crate::vcover!();\n"
                 "    let r = %s(days, count) as i64;\n"
                 "    assert!(0 <= r && r <= 8_000_001, \"C14 block size in range\");\n"
@@ -198,9 +198,10 @@ def pregen(repo):
                 "    assert!(days == 0 || (r - 1) * (count as i64) < days as i64, \"C14 block size is the ceiling (not too large)\");\n"
                 "    assert!(days != 0 || r == 0, \"C14 block size of an empty range is 0\");\n"
                 "}\n    };\n}\n"
-                "c14_bs!(c14_outlined_partition_1, 2, 64);\n"
-                "c14_bs!(c14_outlined_partition_1_c1024, 65, 1024);\n"
-                "c14_bs!(c14_outlined_partition_1_c65536, 1025, 65536);\n"
+                "c14_bs!(c14_outlined_partition_1, 4096, 2, 64);\n"
+                "c14_bs!(c14_outlined_partition_1_d8m, 8_000_001, 2, 64);\n"
+                "c14_bs!(c14_outlined_partition_1_c1024, 8_000_001, 65, 1024);\n"
+                "c14_bs!(c14_outlined_partition_1_c65536, 8_000_001, 1025, 65536);\n"
                 % (re.sub(r"\s+", " ", o["stmt"]), o["name"], ", ".join(o["args"]), o["ret"], o["rhs"], o["name"]))
     except (X.LostAnchor, IndexError, OSError) as e:
         text = "// extraction failed: %s (C14 reports the lost anchor)\n" % e
